@@ -331,8 +331,10 @@ def run(ctx):
                 if not fine:
                     ctx.count("lloyd_small_precondition_excluded"); continue
                 r = gu.lloyd_relaxation(l, steps)
-            if r.n_plaquettes != N or r.n_vertices != 2 * N:
-                ctx.impl_violation(f"{name}: Lloyd relaxation changed the number of cells from {N} to {r.n_plaquettes} (V={r.n_vertices})", dict(case=name, points=pts.tolist(), steps=steps))
+            # the number of cells of a trivalent tessellation of the torus is E - V = V / 2; a cell that touches its own periodic image is a cell but not a
+            # plaquette (its boundary walk is not contractible), so for these very large cells the plaquette count is not what is judged
+            if r.n_vertices != 2 * N or r.n_edges != 3 * N:
+                ctx.impl_violation(f"{name}: Lloyd relaxation changed the number of cells from {N} to {r.n_edges - r.n_vertices} (V={r.n_vertices}, E={r.n_edges})", dict(case=name, points=pts.tolist(), steps=steps))
             ctx.case((name,), nontrivial=True)
             ctx.count("lloyd_small_runs")
         except Exception as ex:
